@@ -46,14 +46,20 @@ def generate(rng, tier, index):
     n_nodes = rng.choice([2, 3, 4, 5, 6, 8]) if tier == "quick" else rng.choice([2, 3, 4, 5, 6, 8, 10, 14])
     triples = gen.gen_graph(rng, n_nodes=n_nodes, n_classes=rng.randint(1, 3), n_props=rng.randint(1, 4),
                             kinds=("node", "str", "int", "iri"), density=rng.choice([0.4, 0.6, 0.8]))
-    if not gen.classes_of(triples):
-        triples = sorted(set(triples) | {(gen.iri(gen.EX + "n0"), gen.iri(gen.RDF_TYPE), gen.iri(gen.EX + "C0"))}, key=repr)
-    target = gen.gen_target(rng, triples, allow_shape_map=True)
+    tp = gen.CUSTOM_TYPE if rng.random() < 0.12 else gen.RDF_TYPE
+    triples = gen.retype(gen.ensure_class(triples), tp)
+    target = gen.gen_target(rng, triples, allow_shape_map=True, type_prop=tp)
+    if "all_classes_mode" in target and tp != gen.RDF_TYPE:
+        # the endpoint lists classes through rdf:type whatever instantiation_property says (outside C15's quantifier)
+        tp = gen.RDF_TYPE
+        triples = gen.retype([(s, gen.iri(gen.RDF_TYPE) if p[1] == gen.CUSTOM_TYPE else p, o) for (s, p, o) in triples], tp)
     options = gen.gen_options(rng, allow_inverse=True)
+    if tp != gen.RDF_TYPE:
+        options["instantiation_property"] = tp
     if rng.random() < 0.3:
         options["track_classes_for_entities_at_last_depth_level"] = True
     if "shape_map_raw" not in target and rng.random() < 0.35:
-        sizes = [len(gen.instances_of(triples, c)) for c in gen.classes_of(triples)]
+        sizes = [len(gen.instances_of(triples, c, tp)) for c in gen.classes_of(triples, tp)]
         options["instances_cap"] = rng.randint(1, max(sizes) + 1)
     if rng.random() < 0.15:
         options["detect_minimal_iri"] = True
@@ -143,6 +149,7 @@ def _capped_reference(sim, scen, triples, ep):
     """fresh local model restricted, through instances_file_input, to the
     instances C16's rule selects from the delivered pass-1 stream."""
     k = scen["options"]["instances_cap"]
+    tp = scen["options"].get("instantiation_property", gen.RDF_TYPE)
     stream = _first_delivery_stream(ep)
     relevant = None
     if "target_classes" in scen["target"]:
@@ -150,13 +157,13 @@ def _capped_reference(sim, scen, triples, ep):
     cnt = {}
     keep = []
     for (s, p, o) in stream:
-        if p == gen.RDF_TYPE and o.get("type") == "uri":
+        if p == tp and o.get("type") == "uri":
             c = o["value"]
             if relevant is not None and c not in relevant:
                 continue
             if cnt.get(c, 0) < k:
                 cnt[c] = cnt.get(c, 0) + 1
-                keep.append("<%s> <%s> <%s> .\n" % (s, gen.RDF_TYPE, c))
+                keep.append("<%s> <%s> <%s> .\n" % (s, tp, c))
     f_graph = sim.write_file("full.nt", gen.to_nt(triples))
     f_inst = sim.write_file("inst.nt", "".join(keep))
     opts = copy.deepcopy(scen["options"])
@@ -321,4 +328,6 @@ def shrink(scen):
                 c["faults"][j]["burst"] = f["burst"] // 2
                 yield c
     for c in generic_shrink(scen, list_keys=("faults", "graph"), dict_keys=(), extra=extra):
-        yield c
+        # keep the generator's invariant: at least one typing triple (an endpoint without any class is a different, trivial case)
+        if gen.classes_of([gen.T(t) for t in c["graph"]], c["options"].get("instantiation_property", gen.RDF_TYPE)):
+            yield c
